@@ -26,7 +26,7 @@ import (
 // (the binary is built with -race by the driver; a report makes the test fail).
 func TestC15Race(t *testing.T) {
 	rec := evid.New(t, "C15", "maximally concurrent scenarios under the Go race detector: 3..5 channels (custom transports, TCP-server and UDP-server peers), 3..6 API goroutines mixing all six Write* calls, a router goroutine that edits received frames, calls FixFrame and forwards them with WriteFrameExcept, a consumer, heartbeats every 2-5 ms, stream requests triggered by ArduPilot heartbeats from several senders on several channels, peers connecting and leaving (also while Close is under way), rejected input producing parse-error events, a consumer that keeps the last events and reads them again later, a second node created on the same dialect object in mid-run, and Close racing with all of it; any DATA RACE report whose stack includes a gomavlib package is a violation; non-trivial = >=2 API goroutines and >=2 channel readers active in overlapping intervals (measured from the harness timeline); distinct by hash of the scenario parameters")
-	rec.Require("overlapping-api-and-readers", "close-racing", "tcp-peer-connecting-during-close", "kept-events-read-again", "incoming-key-with-signed-traffic-on-several-links", "read-side-fails-while-a-slow-write-is-in-progress")
+	rec.Require("overlapping-api-and-readers", "close-racing", "tcp-peer-connecting-during-close", "kept-events-read-again", "incoming-key-with-signed-traffic-on-several-links", "read-side-fails-while-a-slow-write-is-in-progress", "listen-only-peers-expiring-while-the-node-writes")
 	hbLay, _ := ref.LayoutOf(refTypeOf(&minimal.MessageHeartbeat{}))
 	evid.Check(t, rec, evid.N(60, 250), func(t *rapid.T) {
 		drawNodeInit(t)
@@ -79,6 +79,12 @@ func TestC15Race(t *testing.T) {
 		}
 		n := &gomavlib.Node{Endpoints: endpoints, Dialect: ardupilotmega.Dialect, OutVersion: gomavlib.V2, OutSystemID: nodeSys,
 			HeartbeatPeriod: hbPeriod, StreamRequestEnable: true, OutKey: keyOf(key), InKey: keyOf(inKey), WriteTimeout: 500 * time.Millisecond}
+		// a short idle timeout and peers that only listen (a logger, a display): their channels expire over and over while
+		// the node keeps writing heartbeats and fan-out traffic to them
+		listenOnly := rapid.IntRange(0, 2).Draw(t, "listen_only_peers_and_short_idle_timeout") == 0
+		if listenOnly {
+			n.IdleTimeout = time.Duration(rapid.IntRange(8, 25).Draw(t, "idle_ms")) * time.Millisecond
+		}
 		if err := initNode(&n); err != nil {
 			t.Fatalf("BROKEN: %v", err)
 		}
@@ -223,6 +229,13 @@ func TestC15Race(t *testing.T) {
 						pv.Checksum = pv.ChecksumFor(lay(22).CRCExtra)
 						p.Feed(signIn(pv, byte(i)).Bytes())
 					}
+					{
+						// a message whose fields are all zero, sent the way senders do (one zero byte): the router edits
+						// what it receives in place, every received message is the application's own
+						z := ref.Frame{V2: true, Seq: byte(k), Sys: byte(90 + i), Comp: 1, ID: debugMsgID, Payload: []byte{0}}
+						z.Checksum = z.ChecksumFor(lay(debugMsgID).CRCExtra)
+						p.Feed(signIn(z, byte(i)).Bytes())
+					}
 					if rejectedInput {
 						bad := tagged(byte(i+1), k, "debug", true, nil, 0)
 						bad.Checksum ^= 0x0101
@@ -272,6 +285,40 @@ func TestC15Race(t *testing.T) {
 		for i := 0; i < ntcp; i++ {
 			wg.Add(1)
 			go dialPeer("tcp4", tcpAddr, i)
+		}
+		if listenOnly {
+			for _, nw := range []string{"tcp4", "udp4"} {
+				if nw == "udp4" && nudp == 0 {
+					continue // (the known finding about new UDP peers at Close is kept out by construction where UDP peers exist)
+				}
+				wg.Add(1)
+				go func(nw string) {
+					defer wg.Done()
+					addr := tcpAddr
+					if nw == "udp4" {
+						addr = udpAddr
+					}
+					for {
+						p, err := sim.Dial(nw, addr)
+						if err != nil {
+							return
+						}
+						peersMu.Lock()
+						peers = append(peers, p)
+						peersMu.Unlock()
+						p.Send(signIn(tagged(70, 0, "debug", true, nil, 0), 70).Bytes()) //nolint:errcheck // says hello once, then only listens
+						if nw == "udp4" {
+							<-stop // one UDP peer: it expires once and stays away
+							return
+						}
+						select {
+						case <-stop:
+							return
+						case <-time.After(3 * n.IdleTimeout): // expired by now: come back
+						}
+					}
+				}(nw)
+			}
 		}
 		for i := 0; i < nudp; i++ {
 			wg.Add(1)
@@ -413,6 +460,9 @@ func TestC15Race(t *testing.T) {
 		var cls []string
 		if slowLink {
 			cls = append(cls, "read-side-fails-while-a-slow-write-is-in-progress")
+		}
+		if listenOnly {
+			cls = append(cls, "listen-only-peers-expiring-while-the-node-writes")
 		}
 		nt := atomic.LoadInt32(&overlap) == 1 && atomic.LoadInt32(&readersActive) > 1
 		if nt {
